@@ -487,3 +487,28 @@ CHECKS['C03'] = dict(
     min_nontrivial={'quick': 1000, 'thorough': 2000},
     min_counters={'quick': {'streams_compared': 1500, 'packets_compared': 80000, 'metric_crosschecks': 48}, 'thorough': {'streams_compared': 50000}},
 )
+
+CHECKS['C04'] = dict(
+    level='exploration',
+    rule="rt: per case one configuration (rate, 1-2 channels, application, forced SILK/hybrid/CELT or automatic mode with a compatible "
+         "bandwidth, frame 2.5..120 ms, bitrate at or above a per-mode floor, VBR/CBR, complexity 0/5/10, input and output sample format "
+         "chosen among int16/int24/float) and a 2..3.5 s signal (white / band-limited noise, multi-tone, sweep, speech-like, clicks, voiced; "
+         "stereo variants: independent mix, left only, right only, unequal level, anti-phase) is coded by the tree and, with identical "
+         "settings and input, by the frozen reference build; oracles: OPUS_GET_LOOKAHEAD equals the documented value and the frozen "
+         "build's; cross-correlation delay estimate (parabolic interpolation, +-3 ms) within 0.5 sample (CELT; estimator noise, a wrong lookahead is off by a whole sample) / 0.1 ms (SILK, hybrid) of "
+         "the lookahead and within 0.1 sample of the frozen build's estimate; SNR not more than 3 dB below the frozen build's (unless above 45 dB); per-band (21 bands) energy error not more "
+         "than 2 dB above the frozen build's; sign and level per channel; crosstalk for single-channel stimuli. ms: surround families 1/255 "
+         "with a distinct tone per channel: each comes back dominant, in phase and within 1.5 dB in its own channel. Distinct = (mode, "
+         "frame size, rate, channels, identity stimulus, sample formats, signal, application).",
+    assumptions=COMMON_ASSUME + ["fidelity bounds are relative to the frozen build of the same arithmetic on the identical input (calib/c04.json margins); perceptual quality is out of scope",
+                                 "the delay estimator is applied to noise-like / speech-like stimuli where the frozen build itself reaches 12 dB SNR and its own estimate is within tolerance"],
+    evals_counter='roundtrips',
+    runs=[
+        dict(h='h_c04.c', mode='rt', flavour='prod', ref='both', n={'quick': 2400, 'thorough': 40000}),
+        dict(h='h_c04.c', mode='rt', flavour='prod-fixed', ref='both', n={'quick': 1200, 'thorough': 20000}),
+        dict(h='h_c04.c', mode='rt', flavour='asan', ref='both', n={'quick': 160, 'thorough': 3000}),
+        dict(h='h_c04.c', mode='ms', flavour='prod', ref='both', n={'quick': 1200, 'thorough': 20000}),
+    ],
+    min_nontrivial={'quick': 400, 'thorough': 1000},
+    min_counters={'quick': {'roundtrips': 3500, 'delays_checked': 1200, 'bands_checked': 40000, 'ms_channels_checked': 4000}, 'thorough': {'roundtrips': 15000}},
+)
